@@ -15,8 +15,8 @@ RULE = ("seeded random graphs built through the public API: 0-40 nodes, arbitrar
         "serde_json value, the re-parsed JSON text, the API projection and pretty_print() are compared; non-trivial = at least one "
         "attribute or edge")
 
-NAMES = ["a", "kind", "é", "with space", "z-last", "A", "_u"]
-STRINGS = ["", "plain", "q\"uote", "back\\slash", "new\nline", "tab\t", "é中", "\u0001ctl", "{}", "a b"]
+NAMES = ["a", "kind", "é", "with space", "z-last", "A", "_u", "Kind", "Zeta", "B", "name", "alpha", "_private"]
+STRINGS = ["", "plain", "q\"uote", "back\\slash", "new\nline", "tab\t", "é中", "\u0001ctl", "{}", "a b", "it's", "café", "nul\u0000", "cr\r"]
 
 
 def rand_value(r, depth):
@@ -71,7 +71,7 @@ def has_gn(v):
 
 def rand_attrs(r, n):
     out = {}
-    for _ in range(r.choice([0, 0, 1, 2, 3])):
+    for _ in range(r.choice([0, 0, 1, 2, 3, 5])):
         v = fix_gn(rand_value(r, 3), n, r)
         if n == 0 and has_gn(v):
             continue
